@@ -121,3 +121,38 @@ Proof.
   pose proof (copy_top_spec c f0 dr dcs (render scs) Hsr fuel o osl src dst matches (cst_init f0) s' res C (lok_init c f0 dr dcs) eq_refl Hnul Hm' H) as C'.
   apply (inv_frame f0 dr (s_fs s') (cx_inv _ _ _ _ _ C')); auto.
 Qed.
+
+From FS Require Import Proofs.CopyFsSrcP.
+
+(* Copy with disjoint roots: every inode the copier reads through a source path (Lstat, the
+   directory listings, os.Open of regular files, os.Stat of deferred parents, xattrs) is srcRoot, a
+   directory below it, or an entry of such a directory — in the INITIAL file system: the tree below
+   srcRoot does not change during the copy, and no symlink is followed on the way. *)
+Theorem copy_reads_inside_proof fuel c o osl scs src dcs dst matches f0 dr sr s' res :
+  fs_wf f0 ->
+  forallb name_ok dcs = true -> chain f0 (c_root c) dcs dr -> (length dcs < rfuel)%nat ->
+  forallb name_ok scs = true -> chain f0 (c_root c) scs sr -> (length scs < rfuel)%nat ->
+  ~ inside_dir f0 dr sr -> ~ inside_dir f0 sr dr ->
+  has_nul src = false -> (forall l, matches = Some l -> forallb (fun m => negb (has_nul m)) l = true) ->
+  copy_top fuel c o osl (render scs) src (render dcs) dst matches (cst_init f0) = (s', res) ->
+  forall i, In i (s_reads s') -> src_reach f0 sr i.
+Proof.
+  intros W Hdn Hdc Hdl Hsn Hsc Hsl D1 D2 Hnul Hm H.
+  pose proof (wf_ctx c f0 dr dcs W Hdn Hdc Hdl) as C.
+  assert (Hsr : forall f, Ctx c f0 dr dcs f -> forall ino fi, snd (sys_lstat c f (render scs)) = RStat ino fi -> kind_is_dir fi = true).
+  { intros f Cf. eapply src_root_dir; eauto. apply W. }
+  assert (Hm' : forall l, matches = Some l -> Forall (fun m => has_nul m = false) l).
+  { intros l El. specialize (Hm l El). rewrite forallb_forall in Hm. apply Forall_forall. intros x Hx.
+    apply negb_true_iff. apply Hm. exact Hx. }
+  apply forallb_name_ok in Hsn. destruct Hsn as [Hs1 Hs2].
+  assert (Rk0 : rok (Rc f0 sr) (cst_init f0)) by (intros i Hi; destruct Hi).
+  destruct (copy_top_spec_r c f0 dr dcs (render scs) Hsr (Rc f0 sr) (SPc f0 scs sr) (SPNc f0 scs sr)
+              (fun f p i Cf => src_HA c f0 dr scs sr W Hs1 Hs2 Hsc Hsl D1 D2 f p i (cx_inv _ _ _ _ _ Cf))
+              (fun f p i n Cf => src_HB c f0 dr scs sr W Hs1 Hs2 Hsc Hsl D1 D2 f p i n (cx_inv _ _ _ _ _ Cf))
+              (fun f p j Cf => src_HC c f0 dr scs sr W Hs1 Hs2 Hsc Hsl D1 D2 f p j (cx_inv _ _ _ _ _ Cf))
+              (fun f p j pp es n Cf => src_HD c f0 dr scs sr W Hs1 Hs2 Hsc Hsl D1 D2 f p j pp es n (cx_inv _ _ _ _ _ Cf))
+              (src_HN f0 scs sr)
+              (fun f src0 follow sf Cf => src_HE c f0 dr scs sr W Hs1 Hs2 Hsc Hsl D1 D2 f src0 follow sf (cx_inv _ _ _ _ _ Cf))
+              fuel o osl src dst matches (cst_init f0) s' res C (lok_init c f0 dr dcs) eq_refl Hnul Hm' Rk0 H) as (_ & Rk).
+  exact Rk.
+Qed.
